@@ -2,6 +2,7 @@
 query per path, replay counterexamples concretely, attribute them to known
 finding regions, run the negative twin.  See DESIGN.md section 4."""
 import z3
+from . import second
 from fractions import Fraction
 from . import symx
 from .symx import Engine
@@ -20,6 +21,9 @@ def model_values(model):
         elif z3.is_true(v) or z3.is_false(v):
             out[str(d)] = bool(z3.is_true(v))
     return out
+
+
+SECOND_PER_INSTANCE = 4      # queries per instance handed to the second solver (process start dominates its cost)
 
 
 def as_bool(c):
@@ -47,6 +51,7 @@ def decide(fn, pre, good, *, inst, harness, replay, regions=(), twin=None, max_d
                known=[], errors=[], nontrivial=False, sat_replayed=0)
     known_seen = set()
     twin_sat = False
+    second_done = 0
     outside = z3.And(*[z3.Not(r["pred"]) for r in regions]) if regions else None
     for p in paths:
         if p.kind in ("cut", "timeout"):
@@ -68,11 +73,23 @@ def decide(fn, pre, good, *, inst, harness, replay, regions=(), twin=None, max_d
                 continue
             what = "property violated"
         full_bad = z3.And(bad, outside) if outside is not None else bad
+        eng.keep_smt2 = second.enabled() and second_done < SECOND_PER_INSTANCE
         r, model = eng.query(pre, p.pc, full_bad, timeout_ms=query_timeout_ms)
         res["queries"] += 1
         if r == "unsat":
             res["unsat"] += 1
             res["nontrivial"] = True
+            if eng.keep_smt2 and eng.last_smt2:
+                # second solver (thorough tier): the same query, exported as SMT-LIB 2, decided by the cvc5 binary
+                second_done += 1
+                v2 = second.decide(eng.last_smt2)
+                c = res.setdefault("counters", {})
+                key = "second_solver_" + ("unsat" if v2 == "unsat" else "sat" if v2 == "sat" else "inconclusive")
+                c[key] = c.get(key, 0) + 1
+                if key.endswith("inconclusive"):
+                    res.setdefault("notes", []).append("second solver " + v2[:100])
+                if v2 == "sat":
+                    res["errors"].append(f"the second solver (cvc5) finds a model for a query z3 answered unsat; nothing claimed for {inst}")
         elif r == "unknown":
             res["undecided"] += 1
         else:
